@@ -6,3 +6,4 @@ import Bmc.Proofs.C10
 #print axioms Bmc.Proofs.C10.lost_sessionless_retries
 #print axioms Bmc.Proofs.C10.unserialisable_sends_nothing
 #print axioms Bmc.Proofs.C10.busy_then_final
+#print axioms Bmc.Proofs.C10.handshake_payload_retries
